@@ -561,6 +561,9 @@ def shrink(v: Violation) -> Violation:
             groups: List[List[int]] = []
             seen_w: Dict[int, List[int]] = {}
             for i, it in enumerate(r["ins"]):
+                if it["k"] == "call":
+                    groups.append([i])  # dropping a nested call keeps the body stack-neutral
+                    continue
                 if it["k"] != "plain":
                     continue
                 if "w" in it:
